@@ -53,12 +53,13 @@ Definition py_invert (a : Z) : Z := Z.lnot a.
 Definition byte_Z (b : byte) : Z := Z.of_N (Byte.to_N b).
 Definition Z_byte (z : Z) : byte := b8 (Z.to_N z).
 
-(* the [len] low base-256 digits of z (floor div/mod, so negative numbers come out in
-   two's complement), most significant first *)
+(* the [len] low base-256 digits of z, most significant first.  Digits are taken with >> 8 and
+   & 255 — the floor quotient and remainder by 256 (lemma be_digits_step), so negative numbers come
+   out in two's complement; shifts keep the evaluation inside coqc linear in the size of z *)
 Fixpoint be_digits (len : nat) (z : Z) : bytes :=
   match len with
   | O => []
-  | S k => be_digits k (z / 256) ++ [Z_byte (z mod 256)]
+  | S k => be_digits k (Z.shiftr z 8) ++ [Z_byte (Z.land z 255)]
   end.
 
 (* int.to_bytes(len, 'big', signed=...): OverflowError (Reject) when the value does not fit *)
